@@ -163,6 +163,21 @@ func Cases(t *Tree, rng *rand.Rand, o CaseOpts) []*Case {
 			out = append(out, mk([]*Iface{i}))
 		}
 	}
+	for _, names := range t.FixedRequests {
+		var ifs []*Iface
+		for _, n := range names {
+			for _, i := range t.Ifaces {
+				if i.Name == n {
+					ifs = append(ifs, i)
+				}
+			}
+		}
+		if len(ifs) == len(names) {
+			c := mk(ifs)
+			c.Ifaces, c.MockNames = ifs, make([]string, len(ifs)) // exactly as listed
+			out = append(out, c)
+		}
+	}
 	for k := 0; k < o.Multi && len(t.Ifaces) >= 2; k++ {
 		n := 2 + rng.Intn(3)
 		if n > len(t.Ifaces) {
